@@ -624,8 +624,17 @@ def gen_class_trace(b, kind, pattern):
             ops.append(o2)
         ops.append({"op": "CHECKSNAP", "obj": "e0", "between": between})
     elif pattern == "repeat":
+        other_between = rng.random() < 0.35
         for li in range(2):
             nm = f"e{li}"
+            if li == 1 and other_between:
+                # between the two repetitions another object of the class is constructed, fitted
+                # and read on other data with other parameters (state shared across objects -
+                # class attributes, module-level caches - would leak into the repetition)
+                s2 = SUBJECTS[kind](b, kind, "single")
+                ops.append({"op": "NEW", "obj": "e9", "kind": kind, "params": s2["params"]})
+                ops.append({"op": "FIT", "obj": "e9", "args": s2["fitA"], "env": {"rng": {"seed": _seed(rng)}}})
+                ops.extend(_reads_ops("e9", s2, s2["fitA"], b)[:3])
             ops.append({"op": "NEW", "obj": nm, "kind": kind, "params": s["params"], "lane": 0 if s["repeatable"] else None})
             env = b.env(kind, s["params"], [e for e in allow if e != "rng_always"] + ["rng"] + ["clock", "arpack", "joblib"])
             if not b.faults:
@@ -643,6 +652,11 @@ def gen_class_trace(b, kind, pattern):
         for o in _reads_ops("e0", s, s["fitB"], b):
             o["env"] = b.env(kind, s["params"], ["interrupt"]) if rng.random() < 0.4 else None
             ops.append(o)
+        if rng.random() < 0.5:
+            # after the crash(es) the caller simply fits the object again
+            fa = s["fitA"] if rng.random() < 0.5 else s["fitB"]
+            ops.append({"op": "FIT", "obj": "e0", "args": fa, "env": b.env(kind, s["params"], allow)})
+            ops.extend(_reads_ops("e0", s, fa, b))
     return s
 
 
